@@ -7,4 +7,5 @@ bin/gen_gomod.sh
 (cd mc && "$VERIF_GO" run ./cmd/gendb dbwrap/wrap_gen.go)
 mkdir -p .build evidence
 (cd mc && "$VERIF_GO" build -tags verif -o ../.build/vcheck ./cmd/vcheck)
+(cd mc && "$VERIF_GO" test -c -tags verif -vet=off -o ../.build/c17.test ./pubsubmc)
 echo "setup ok: $(.build/vcheck 2>&1 | head -1)"
